@@ -613,6 +613,7 @@ pub fn run(ctx: &Ctx, out: &mut Out) {
                                     c.persistence_directory = Some(if grid.len() % 3 == 1 && persist_link.exists() { persist_link.clone() } else { persist.clone() });
                                 }
                                 c.via_env = env;
+                                c.seed_upper = grid.len() % 7 == 3;
                                 grid.push(c);
                             }
                         }
@@ -640,6 +641,7 @@ pub fn run(ctx: &Ctx, out: &mut Out) {
                         c.persistence_directory = Some(if k % 4 >= 2 && persist_link.exists() { persist_link.clone() } else { persist.clone() });
                     }
                     c.via_env = env;
+                    c.seed_upper = k % 5 == 2;
                     grid.push(c);
                     k += 1;
                 }
